@@ -1,14 +1,13 @@
-SPECIFICATION Spec
+SPECIFICATION SpecD
 CONSTANTS
   N = 4
-  Alphabet <- AlphaConsTiny
-  Times <- TimesOne
-  MaxAccepts = 3
+  Alphabet <- AlphaCore
+  Times <- TimesCore
+  MaxAccepts = 1
   ForkEpoch <- ForkNever
   PartialWindow = FALSE
+  OverflowGuard = FALSE
   Weaken = "none"
   KnownGaps = {"partial-sig-outside-slot-window"}
-PROPERTY Total
 PROPERTY AcceptSound
-INVARIANT StateSound
 VIEW view
